@@ -43,3 +43,29 @@ Theorem C13_phase_indices n c i k : c <> 0 -> i < c -> In k (phase_indices n c i
   k < n /\ k mod c = i.
 Proof. exact (phase_indices_in_range n c i k). Qed.
 Print Assumptions C13_phase_indices.
+
+(* ---- the window conditions AS WRITTEN IN THE CURRENT core/data.py and the
+        climatology statements of climate_data.py (regenerated on every run) ---- *)
+From PV.Gen Require Import WindowK.
+From PV.Proofs Require Import WindowGen.
+
+Theorem C13_time_mask_is_model tmin tmax vals :
+  map (fun v => gen_time_full tmin tmax || gen_time_in tmin tmax v) vals = axis_mask tmin tmax vals.
+Proof. exact (gen_time_mask_is_model tmin tmax vals). Qed.
+Print Assumptions C13_time_mask_is_model.
+
+(* the source takes the full spatial extent as soon as EITHER pair of bounds
+   coincides (the documented rule; the known finding of C13 is the strict
+   per-axis reading of the property) *)
+Theorem C13_space_mask_is_model latlo lathi lonlo lonhi lat lon : length lat = length lon ->
+  map (fun p => gen_space_full latlo lathi lonlo lonhi
+                || gen_space_in latlo lathi lonlo lonhi (fst p) (snd p)) (combine lat lon)
+  = space_mask false latlo lathi lonlo lonhi lat lon.
+Proof. exact (gen_space_mask_is_model latlo lathi lonlo lonhi lat lon). Qed.
+Print Assumptions C13_space_mask_is_model.
+
+Theorem C13_source_facts :
+  gen_window_slicing = true /\ gen_phase_mean_by_stride = true /\
+  gen_anomaly_is_minus_phase_mean = true.
+Proof. exact gen_window_facts. Qed.
+Print Assumptions C13_source_facts.
